@@ -204,6 +204,50 @@ fn mem_cases(thorough: bool) -> Vec<Case> {
             }
         }
     }
+    // (a') thorough: EVERY start in the first 41 and the last 32 bytes of memory x EVERY length that stays inside
+    //      the patterned region / the space, both forms (every alignment of start and end within a row of 16)
+    if thorough {
+        for form in 0..2 {
+            let starts: Vec<u32> = (0..=40u32).chain(0xFFFE0..=0xFFFFFu32).collect();
+            for s in starts {
+                let mut code = vec![label("start")];
+                if s % 2 == 1 {
+                    code.push(mov(r16("ax"), imm(0x0203)));
+                    code.push(mov(sr("ds"), r16("ax")));
+                }
+                for n in 0..=40u32 {
+                    if s + n >= MB {
+                        continue;
+                    }
+                    code.push(print(if form == 0 { PrintKind::MemRange(s, s + n) } else { PrintKind::MemLen(s, n) }));
+                }
+                code.push(print(PrintKind::Reg));
+                v.push(Case {
+                    site: if form == 0 { "print mem a -> b".into() } else { "print mem a : n".into() },
+                    prog: Program { data: mem_data(), code },
+                    spelling: None,
+                    stdin: vec![],
+                    interpreted: false,
+                    note: format!("dense: start {} x every length up to 40", s),
+                });
+            }
+        }
+    }
+    if thorough {
+        // DS-relative: every length 0..=47 from three segment starts (the last one leaves the space at 32)
+        for ds in [0u16, 0x003F, 0xFFFE] {
+            for half in 0..2u32 {
+                let mut code = vec![label("start")];
+                code.push(mov(r16("ax"), imm(ds as i32)));
+                code.push(mov(sr("ds"), r16("ax")));
+                for n in (half * 24)..(half * 24 + 24) {
+                    code.push(print(PrintKind::MemDs(n)));
+                }
+                code.push(print(PrintKind::Reg));
+                v.push(Case { site: "print mem : n".into(), prog: Program { data: mem_data(), code }, spelling: None, stdin: vec![], interpreted: false, note: format!("dense: DS=0x{:04X}, lengths {}..{}", ds, half * 24, half * 24 + 23) });
+            }
+        }
+    }
     // (b) DS-relative ranges: DS over the segment lattice, lengths incl. those that leave the space
     let dss: Vec<u16> = if thorough { vec![0, 1, 0x003F, 0x0FFF, 0x1000, 0xF000, 0xFFFE, 0xFFFF, 0xFFF0, 0x8000] } else { vec![0, 0x003F, 0x1000, 0xFFFE, 0xFFFF] };
     for ds in dss {
@@ -501,7 +545,7 @@ pub fn run(tier: &Tier) -> i32 {
     }
     let mut cov = Coverage::default();
     cov.exhaustive = true;
-    cov.rule = "every run is the real binary; stdout is parsed back field by field (12 registers as four upper-case hex digits, nine flags as 0/1, memory as two-digit upper-case hex cells in rows of 16) and compared with the reference interpreter's machine state at that point. Register group: 11 rotations of 11 distinct values over the 11 settable registers (each register holds each value once). Flag group: all 512 combinations of the nine flags loaded through POPF (TF combinations are single-stepped with 'n'). Memory group (every second run under DS=0x1000: absolute ranges must not depend on DS): 10 starts x 10 lengths (0,1,2,15,16,17,31,32,33,64) for 'a -> b' and 'a : n' incl. ranges ending at 0xFFFFF, backwards ranges, DS-relative ranges for DS over the segment lattice incl. ranges leaving the space and ranges longer than 64 KiB, each in 5 spellings (decimal, 0x, 0X + upper-case keywords, 0b, upper-case). Prompt group: every command of a 100+ command alphabet (4 radices, spacing and case variants, commands padded beyond 256 and 4096 bytes, reported ranges, constants beyond 2^20 and beyond 2^64) typed alone / repeated / all in one script at an INT 3 prompt, at each single-step prompt of -i mode, and under the trap flag; after every prompt the program prints registers, flags and memory again, so any change caused by printing is visible. Prompt constants exhaustively: the data definitions fill the first 64 KiB with an address-identifying pattern, stops at INT 3, and EVERY address 0..65535 is typed in 4 (thorough 6) spellings (decimal, 0x, 0x with leading zeros, 0b, 0X, zero-padded decimal) in both absolute forms".into();
+    cov.rule = "(thorough adds: every start in the first 41 and last 32 bytes of memory x every length up to 40 in both absolute forms, and every DS-relative length 0..47 from three segments.) every run is the real binary; stdout is parsed back field by field (12 registers as four upper-case hex digits, nine flags as 0/1, memory as two-digit upper-case hex cells in rows of 16) and compared with the reference interpreter's machine state at that point. Register group: 11 rotations of 11 distinct values over the 11 settable registers (each register holds each value once). Flag group: all 512 combinations of the nine flags loaded through POPF (TF combinations are single-stepped with 'n'). Memory group (every second run under DS=0x1000: absolute ranges must not depend on DS): 10 starts x 10 lengths (0,1,2,15,16,17,31,32,33,64) for 'a -> b' and 'a : n' incl. ranges ending at 0xFFFFF, backwards ranges, DS-relative ranges for DS over the segment lattice incl. ranges leaving the space and ranges longer than 64 KiB, each in 5 spellings (decimal, 0x, 0X + upper-case keywords, 0b, upper-case). Prompt group: every command of a 100+ command alphabet (4 radices, spacing and case variants, commands padded beyond 256 and 4096 bytes, reported ranges, constants beyond 2^20 and beyond 2^64) typed alone / repeated / all in one script at an INT 3 prompt, at each single-step prompt of -i mode, and under the trap flag; after every prompt the program prints registers, flags and memory again, so any change caused by printing is visible. Prompt constants exhaustively: the data definitions fill the first 64 KiB with an address-identifying pattern, stops at INT 3, and EVERY address 0..65535 is typed in 4 (thorough 6) spellings (decimal, 0x, 0x with leading zeros, 0b, 0X, zero-padded decimal) in both absolute forms".into();
     cov.bounds = json!({"register_flag_runs": n_regflag, "memory_runs": n_mem, "prompt_runs": n_prompt, "program_prints_checked": prints.load(Ordering::Relaxed), "prompt_prints_checked": prompt_prints.load(Ordering::Relaxed), "range_reports_checked": reports.load(Ordering::Relaxed), "memory_cells_checked": cells.load(Ordering::Relaxed), "tier": tier.name()});
     cov.assumptions = common_assumptions();
     cov.assumptions.push("messages are parsed tolerantly: `XX : 0xHHHH`, `XF : [01]`, rows of two-digit hex cells; a range report is any non-empty line without cells".into());
